@@ -3,6 +3,8 @@ package engb
 import (
 	"fmt"
 	"math/rand/v2"
+	"os"
+	"path/filepath"
 	"strings"
 
 	"verifharness/vkit"
@@ -68,7 +70,14 @@ func runC20(c *vkit.Ctx, lab *Lab, r *rand.Rand, i int) {
 			// calls the recording run did not make: new slots
 			for k := 0; k < 1+r.IntN(2); k++ {
 				api := []string{"snap", "json", "yaml", "ssnap", "sjson"}[r.IntN(5)]
-				n.Calls = append(n.Calls, Call{API: api, Val: lab.value(r, api, name+"-new", 100+k, false)})
+				cl := Call{API: api, Val: lab.value(r, api, name+"-new", 100+k, false)}
+				if r.IntN(5) == 0 {
+					// a directory that cannot be created (its parent is a regular file): the write fails,
+					// the call must still end in exactly one outcome (one Error) and be tallied as failed
+					cl.Dir = filepath.Join(lab.AbsDir, "blocker.txt", "sub")
+					lc.Classes["io-error-on-create"] = true
+				}
+				n.Calls = append(n.Calls, cl)
 			}
 			lc.Classes["new-slots-in-judged-run"] = true
 		}
@@ -79,6 +88,8 @@ func runC20(c *vkit.Ctx, lab *Lab, r *rand.Rand, i int) {
 	}
 	// goroutine-issued calls have no defined per-test order: use distinct files per call there is not needed,
 	// ordinals only have to be consumed exactly once each - outcomes are tallied, not predicted.
+	os.MkdirAll(lab.AbsDir, 0o755)
+	os.WriteFile(filepath.Join(lab.AbsDir, "blocker.txt"), []byte("a regular file where a directory is wanted"), 0o644)
 	res := lab.P.RunChild(RunOpt{PkgDir: lab.PkgDir, Scenario: lc.withSkips(), Count: lc.Count, Extra: lc.Flags, Update: lc.Update, CI: lc.CI})
 	in := labSample(lc)
 	in["ci"] = lc.CI
